@@ -858,6 +858,50 @@ def r10_no_truth_test_of_elements(ctx, res):
         raise AnalysisError(f'only {n} Element-valued locals found in the writer functions')
 
 
+def r11_attributes_set_before_construction(ctx, res):
+    """ET.Element(tag, attrib=d) COPIES d: a key stored into d afterwards never reaches the element.  In the writer functions a
+    dict passed as `attrib=` (or as the second positional argument) of an element constructor is not stored into after that call;
+    later attributes go through elem.set(...) / elem.attrib[...]."""
+    from .c03 import _writer_functions
+    n = 0
+    for f in _writer_functions(ctx):
+        ctor = {}
+        for node in walk_no_nested(f.node):
+            if isinstance(node, ast.Call) and norm(node.func).split('.')[-1] in ('Element', 'SubElement'):
+                a = next((k.value for k in node.keywords if k.arg == 'attrib'), None)
+                if a is None and len(node.args) >= 2 and norm(node.func).split('.')[-1] == 'Element':
+                    a = node.args[1]
+                if isinstance(a, ast.Name):
+                    ctor.setdefault(a.id, []).append(node)
+        for nm, calls in ctor.items():
+            n += 1
+            key = f'attrib-before-construction:{f.qualname}:{nm}'
+            def branches(node):
+                # the (if statement, arm) pairs the node sits in
+                out, prev, p = {}, node, getattr(node, '_parent', None)
+                while p is not None and p is not f.node:
+                    if isinstance(p, ast.If):
+                        out[id(p)] = 'body' if any(prev is b or prev in ast.walk(b) for b in p.body) else 'orelse'
+                    prev, p = p, getattr(p, '_parent', None)
+                return out
+
+            def after_on_one_path(x, c):
+                if x.lineno <= c.lineno:
+                    return False
+                bx, bc = branches(x), branches(c)
+                return all(bx[k] == bc[k] for k in bx.keys() & bc.keys())
+            stores = [x for x in walk_no_nested(f.node)
+                      if (isinstance(x, ast.Subscript) and isinstance(x.ctx, ast.Store) and isinstance(x.value, ast.Name) and x.value.id == nm)
+                      or (isinstance(x, ast.Call) and isinstance(x.func, ast.Attribute) and isinstance(x.func.value, ast.Name)
+                          and x.func.value.id == nm and x.func.attr in ('update', 'setdefault'))]
+            late = [x for x in stores if any(after_on_one_path(x, c) for c in calls)]
+            res.inst(key, f.module.loc(calls[0]), f'{len(late)} stores into `{nm}` after the element was built from it')
+            for x in late:
+                res.find(key, f.module.loc(x), f'{f.qualname} stores `{norm(x)[:50]}` into `{nm}` after ET.Element(..., attrib={nm}) copied it: '
+                                               f'the attribute is never written')
+    if n < 10:
+        raise AnalysisError(f'only {n} attribute dicts handed to element constructors in the writer functions')
+
 RULES = [
     ('C02-R1', r1_tables, 40),
     ('C02-R2', r2_model_reader, 70),
@@ -869,4 +913,5 @@ RULES = [
     ('C02-R8', r8_falsy_numbers_survive, 25),
     ('C02-R9', r9_encoding, 6),
     ('C02-R10', r10_no_truth_test_of_elements, 10),
+    ('C02-R11', r11_attributes_set_before_construction, 10),
 ]
